@@ -16,7 +16,8 @@ SPEC = "KeyOrder"
 CF03_FIXED = os.environ.get("C03_CF03_FIXED", "1") != "0"
 PURE_INVS = ("TypeOK InvEqRefl InvEqSym InvEqTrans InvEqClasses InvCmpRefl InvCmpAntisym InvCmpTrans InvCmpRank "
              "InvEqHash InvPerm InvEqCmp InvDevIsViolation")
-MEMO_INVS = "TypeOK RetOK MemoOK CloneOK EqCmpAgree EqIgnoresMemo"
+MEMO_INVS = "TypeOK RetOK MemoOK CloneOK"      # KeyHashMemo.tla (the Safety of KeyHashMemoApa.tla must name exactly these)
+MEMO_EQ_INVS = MEMO_INVS + " TypeOKEq EqCmpAgree EqIgnoresMemo"   # + comparers, KeyHashMemoEq.tla
 TIERTAG = "q"              # generated cfg names carry the tier, so a quick and a thorough run can share specs/KeyOrder
 
 
@@ -33,7 +34,7 @@ def pure_cfg(name, mode="scope", t8=3, nn=2, nk=2, nv=2, maxlen=3, famlens=(), s
     return os.path.basename(p)
 
 
-def memo_cfg(name, getters, cloners, calls, kinds=("static", "built"), spec="Spec", invs=MEMO_INVS, comparers=(), eq_variant=False):
+def memo_cfg(name, getters, cloners, calls, kinds=("static", "built"), spec="SpecEq", invs=MEMO_EQ_INVS, comparers=(), eq_variant=False):
     p = os.path.join(vlib.SPECS, SPEC, "gen_%s_%s.cfg" % (TIERTAG, name))
     with open(p, "w") as f:
         f.write("SPECIFICATION %s\nCONSTANTS\n Getters = {%s}\n Cloners = {%s}\n NCalls = %d\n InitKinds = {%s}\n"
@@ -236,13 +237,13 @@ def run_memo(chk, thorough):
     if thorough:
         mcs.append(("memo_4g2c1q_2", [1, 2, 3, 4], [11, 12], [21], 2))
     for name, g, c, q, n in mcs:
-        r = vlib.tlc_mc(SPEC, "KeyHashMemo", memo_cfg(name, g, c, n, comparers=q), workers=8, timeout=1800, tag=name)
+        r = vlib.tlc_mc(SPEC, "KeyHashMemoEq", memo_cfg(name, g, c, n, comparers=q), workers=8, timeout=1800, tag=name)
         # the two steps of the witness variant of eq are disabled in the as-coded model
-        if not chk.expect_mc_ok(r, "KeyHashMemo/" + name, vacuity_exempt={"CompareLoadValues", "CompareLoadFlags"}):
+        if not chk.expect_mc_ok(r, "KeyHashMemoEq/" + name, vacuity_exempt={"CompareLoadValues", "CompareLoadFlags"}):
             return False
         chk.log("TLC %s: %d distinct states, depth %d" % (name, r["distinct"], r["depth"]))
     # witness: an eq() that reads the cached hash VALUES before the `hashed` FLAGS must be rejected by TLC
-    r = vlib.tlc_mc(SPEC, "KeyHashMemo", memo_cfg("eq_reads_memo_witness", [1], [], 1, kinds=("static",), comparers=[21], eq_variant=True,
+    r = vlib.tlc_mc(SPEC, "KeyHashMemoEq", memo_cfg("eq_reads_memo_witness", [1], [], 1, kinds=("static",), comparers=[21], eq_variant=True,
                                                   invs="EqCmpAgree EqIgnoresMemo"), workers=1, timeout=600, coverage=False, tag="eqwit")
     if r["invariant"] not in ("EqCmpAgree", "EqIgnoresMemo"):
         chk.tool_error("witness EqReadsMemoValueFirst = TRUE is not rejected by TLC (%s / %s)" % (r["invariant"], r["error"]), r["out"][-3000:])
